@@ -186,3 +186,19 @@ Fixpoint solve1 (d : nat) (bds : list nat) (sweeps : list (bool * bool)) (k : na
 Definition sweep_result (tot_ens : list Z) : Z := last tot_ens 0%Z.
 Definition energies_after (total_energies : list (list Z)) : list Z := map sweep_result total_energies.
 Definition reported_energy (total_energies : list (list Z)) : Z := last (energies_after total_energies) 0%Z.
+
+(* ---- 6. truncation options of the 2-site split ---------------------------------------- *)
+(* cutoff modes (decomp._CUTOFF_MODE_MAP) and the power `renorm=True` is mapped to (decomp._RENORM_LOOKUP, default 0 =
+   no renormalisation).  Only power 2 keeps the Frobenius norm of the two-site tensor = the norm of a canonical-form
+   state, so a DMRG update may delegate its renormalisation to the split for sum2 / rsum2 ONLY; the code renormalises
+   the factor that absorbed the singular values explicitly, for every mode. *)
+Inductive cmode := CAbs | CRel | CSum2 | CRsum2 | CSum1 | CRsum1.
+Definition cmode_code (m : cmode) : nat :=
+  match m with CAbs => 1 | CRel => 2 | CSum2 => 3 | CRsum2 => 4 | CSum1 => 5 | CRsum1 => 6 end.
+Definition renorm_lookup (m : cmode) : nat :=
+  match m with CSum2 | CRsum2 => 2 | CSum1 | CRsum1 => 1 | CAbs | CRel => 0 end.
+Definition keeps_frobenius_norm (m : cmode) : bool := Nat.eqb (renorm_lookup m) 2.
+(* what DMRG._update_local_state_2site does after the split (open boundaries): explicit division by the norm *)
+Definition dmrg2_renormalises_explicitly : bool := true.
+Definition dmrg2_normalised_after_truncation (m : cmode) : bool :=
+  dmrg2_renormalises_explicitly || keeps_frobenius_norm m.
